@@ -20,30 +20,26 @@ From SV Require Import Proofs.TcpProgressBase Proofs.TcpProgressFrame Proofs.Tcp
   Proofs.TcpProgressZw4 Proofs.TcpProgressZw5 Proofs.TcpProgressZw6 Proofs.TcpProgressZw7
   Proofs.TcpProgressCl1 Proofs.TcpProgressCl2 Proofs.TcpProgressCl3 Proofs.TcpProgressCl4 Proofs.TcpProgressCl5
   Proofs.TcpProgressCl6 Proofs.TcpProgressCl7 Proofs.TcpProgressCl8 Proofs.TcpProgressCl9
-  Proofs.TcpProgressCl10 Proofs.TcpProgressCl11 Proofs.TcpProgressCl12 Proofs.TcpProgressCl13.
+  Proofs.TcpProgressCl10 Proofs.TcpProgressCl11 Proofs.TcpProgressCl12 Proofs.TcpProgressCl13
+  Proofs.TcpProgressHsRtx Proofs.TcpProgressHsAll.
 
 Module NV := TcpNetInv.
 Notation sz st z := (net_sock st z).
 
-Theorem quiesce_close_after_fault_prefix Dt Da Dack ca cb st0 (n : nat) :
-  forall pre st evsD evsQ evs1 evs2 stD stQ stC st_m st',
-  start_ok Dack ca cb st0 -> 2 * Dt < tcp_RTTE_MIN_RTO * 1000 -> 0 <= Dack ->
-  (* the fault prefix: any run of the one-way workload - drops, duplicates, reordering, any clock - that ends
-     with both sockets ESTABLISHED *)
-  net_run st0 pre = Ok st -> Forall (script_ev SA) pre ->
-  (forall z, s_state (net_sock st z) = Established) ->
-  (* from there on delivery is reliable *)
-  reliable_schedule Dt Da st (evsD ++ evsQ ++ NClose SA :: evs1 ++ NClose SB :: evs2) ->
-  (* A may go on writing, B reads *)
+(* the core: from a state of the regime, with ANY bookkeeping of the run so far *)
+Theorem quiesce_close_from_reg Dt Da Dack (n : nat) :
+  forall fa st evsD evsQ evs1 evs2 stD stQ stC st_m st',
+  0 <= Dt -> 0 <= Da -> 2 * Dt < tcp_RTTE_MIN_RTO * 1000 -> 0 <= Dack ->
+  reach st -> reg SA Dack st -> opts_ok st -> dl_sync Da fa st -> dlb Dt fa st ->
+  fair_run Dt Da fa st (evsD ++ evsQ ++ NClose SA :: evs1 ++ NClose SB :: evs2) ->
+  once_run Dt Da fa st (evsD ++ evsQ ++ NClose SA :: evs1 ++ NClose SB :: evs2) ->
   Forall (app_ev SA) evsD -> net_run st evsD = Ok stD ->
-  (* the applications neither write nor close *)
   Forall qev evsQ -> net_run stD evsQ = Ok stQ ->
   (forall z, l_len (ep_written (net_get stQ z)) < 2 ^ 30) ->
   run_all qregime stD evsQ ->
   (l_len (ep_written (net_get stD SA)) - una_off (net_get stD SA)) +
   (l_len (ep_written (net_get stD SA)) - read_off (net_get stD SB)) <= Z.of_nat n ->
   net_now stD SA + Z.of_nat n * Wz Dt Da + 2 * Dt + Dack < net_now stQ SA ->
-  (* A closes; B closes in CLOSE-WAIT *)
   net_step stQ (NClose SA) = Ok stC ->
   Forall (cl_ev SA false) evs1 -> net_run stC evs1 = Ok st_m -> net_now stQ SA + 2 * Dt < net_now st_m SA ->
   net_run st_m (NClose SB :: evs2) = Ok st' ->
@@ -56,38 +52,28 @@ Theorem quiesce_close_after_fault_prefix Dt Da Dack ca cb st0 (n : nat) :
      evs2 = pre2 ++ post /\ net_run st_m (NClose SB :: pre2) = Ok st_c /\ net_run st_c post = Ok st' /\
      both_closed st_c).
 Proof.
-  intros pre st evsD evsQ evs1 evs2 stD stQ stC st_m st' Hstart HDt2 HDack Hpre Hscp Hest Hrel HappD HrD HEQ HrQ Hsz HqQ Hn HlQ
+  intros fa st evsD evsQ evs1 evs2 stD stQ stC st_m st' HDt HDa HDt2 HDack Hre HG Ho0 Hsy Hb Hfall Hoall HappD HrD HEQ HrQ Hsz HqQ Hn HlQ
          HsC HE1 Hr1 Hp1 Hr2 Hp2.
-  pose proof Hrel as ((HDt & HDa & Ho0 & _) & _).
-  pose proof Hstart as (Hi & Hst0 & Ga & Gb & Pa & Pb & Haddr & Hdel).
   set (rest := NClose SA :: evs1 ++ NClose SB :: evs2) in *.
   (* bookkeeping at stD and the rest of the run *)
-  destruct (reliable_prefix Dt Da st evsD _ stD HrD Hrel) as (HrelD & HfD & HoD).
-  set (faD := fa_run Dt Da (fa_init Dt Da st) st evsD) in *.
-  destruct HrelD as ((_ & _ & _ & HfairD) & HonceD).
-  pose proof (dl_sync_run Dt Da evsD _ st stD (fa_init_sync Dt Da st) HfairD HrD) as HsyD.
-  pose proof (dlb_run Dt Da evsD _ st stD HDt (dlb_init Dt Da st HDt) HfairD HrD) as HbD.
+  destruct (fair_run_app Dt Da evsD (evsQ ++ rest) fa st stD HrD Hfall) as (HfairD & HfD).
+  destruct (once_run_app Dt Da evsD (evsQ ++ rest) fa st stD HrD Hoall) as (HonceD & HoD).
+  set (faD := fa_run Dt Da fa st evsD) in *.
+  pose proof (dl_sync_run Dt Da evsD _ st stD Hsy HfairD HrD) as HsyD.
+  pose proof (dlb_run Dt Da evsD _ st stD HDt Hb HfairD HrD) as HbD.
   (* sizes *)
   assert (HsmQ : NV.small stQ).
   { split; [specialize (Hsz SA) | specialize (Hsz SB)]; cbn [net_get] in Hsz; change (2 ^ 30) with 1073741824 in Hsz; lia. }
   assert (HwsQ : wr_small SA stQ) by (unfold wr_small; exact (Hsz SA)).
   pose proof (net_run_mono _ _ _ HrQ) as HmQ.
   assert (HsmD : NV.small stD) by exact (NV.small_mono _ _ HmQ HsmQ).
-  pose proof (net_run_mono _ _ _ HrD) as HmD.
-  assert (Hsm : NV.small st) by exact (NV.small_mono _ _ HmD HsmD).
-  (* the regime invariant at the end of the fault prefix *)
-  destruct (hs_init ca cb st0 (cx_isn (ep_cx (n_a st0))) Dack Hi Hst0 Pa Pb Haddr Hdel) as (HP0 & Ho00).
-  destruct (hs_run Dack ca cb st0 Hstart pre [] st0 st eq_refl (or_introl HP0) Ho00 Hscp Hpre Hsm) as (Hinv & _).
-  assert (HG : reg SA Dack st).
-  { destruct Hinv as [HP | HG]; [|exact HG]. exfalso.
-    destruct (ph_phase _ _ _ HP) as [(_ & [B | B]) | (_ & B)]; rewrite (Hest SB) in B; discriminate. }
-  assert (Hre : reach st) by (exists ca, cb, st0, pre; auto).
   assert (HappS : Forall (script_ev SA) evsD).
   { apply Forall_forall. intros ev Hin. apply app_ev_script. rewrite Forall_forall in HappD. exact (HappD ev Hin). }
   pose proof (reg_run_all SA Dack evsD st stD Hre (reach_NI _ Hre) Ho0 HG HappS HrD HsmD) as HGall.
   pose proof (run_all_end _ _ _ _ HGall HrD) as HGD.
   assert (HreD : reach stD).
-  { exists ca, cb, st0, (pre ++ evsD). repeat (split; [assumption|]). exact (net_run_app pre evsD st0 st stD Hpre HrD). }
+  { destruct Hre as (ca' & cb' & st0' & pre0 & R1 & R2 & R3 & R4).
+    exists ca', cb', st0', (pre0 ++ evsD). repeat (split; [assumption|]). exact (net_run_app pre0 evsD st0' st stD R4 HrD). }
   pose proof (reach_NI _ HreD) as HND. pose proof (opts_run _ _ _ Ho0 HrD) as HoD'.
   (* the rest of the run from stD *)
   destruct (fair_run_app Dt Da evsQ rest faD stD stQ HrQ HfD) as (HfQ & HfR).
@@ -149,4 +135,114 @@ Proof.
   destruct (Qd_close Dt Da Dack dk tA X Y _ stQ stC HQRQ HQdQ HevC HsC) as (Hcs & Hnz & HX & HY & HMB & HMB2).
   exact (orderly_close_completes tA X Y _ _ Dt Da dk HDt HDt2 Hnz HX HY HMB HMB2 (net_now stQ SA) evs1 evs2 _ stC st_m st'
            Hcs HE1 HfR HoR Hr1 Hp1 Hr2 Hp2).
+Qed.
+
+Theorem quiesce_close_after_fault_prefix Dt Da Dack ca cb st0 (n : nat) :
+  forall pre st evsD evsQ evs1 evs2 stD stQ stC st_m st',
+  start_ok Dack ca cb st0 -> 2 * Dt < tcp_RTTE_MIN_RTO * 1000 -> 0 <= Dack ->
+  (* the fault prefix: any run of the one-way workload - drops, duplicates, reordering, any clock - that ends
+     with both sockets ESTABLISHED *)
+  net_run st0 pre = Ok st -> Forall (script_ev SA) pre ->
+  (forall z, s_state (net_sock st z) = Established) ->
+  (* from there on delivery is reliable *)
+  reliable_schedule Dt Da st (evsD ++ evsQ ++ NClose SA :: evs1 ++ NClose SB :: evs2) ->
+  (* A may go on writing, B reads *)
+  Forall (app_ev SA) evsD -> net_run st evsD = Ok stD ->
+  (* the applications neither write nor close *)
+  Forall qev evsQ -> net_run stD evsQ = Ok stQ ->
+  (forall z, l_len (ep_written (net_get stQ z)) < 2 ^ 30) ->
+  run_all qregime stD evsQ ->
+  (l_len (ep_written (net_get stD SA)) - una_off (net_get stD SA)) +
+  (l_len (ep_written (net_get stD SA)) - read_off (net_get stD SB)) <= Z.of_nat n ->
+  net_now stD SA + Z.of_nat n * Wz Dt Da + 2 * Dt + Dack < net_now stQ SA ->
+  (* A closes; B closes in CLOSE-WAIT *)
+  net_step stQ (NClose SA) = Ok stC ->
+  Forall (cl_ev SA false) evs1 -> net_run stC evs1 = Ok st_m -> net_now stQ SA + 2 * Dt < net_now st_m SA ->
+  net_run st_m (NClose SB :: evs2) = Ok st' ->
+  net_now st_m SA + 3 * Dt + tcp_CLOSE_DELAY < net_now st' SA ->
+  (exists p1 p2 sta,
+     evsQ = p1 ++ p2 /\ net_run stD p1 = Ok sta /\ net_run sta p2 = Ok stQ /\
+     una_off (net_get sta SA) = l_len (ep_written (net_get stD SA)) /\
+     read_off (net_get sta SB) = l_len (ep_written (net_get stD SA))) /\
+  (exists pre2 post st_c,
+     evs2 = pre2 ++ post /\ net_run st_m (NClose SB :: pre2) = Ok st_c /\ net_run st_c post = Ok st' /\
+     both_closed st_c).
+Proof.
+  intros pre st evsD evsQ evs1 evs2 stD stQ stC st_m st' Hstart HDt2 HDack Hpre Hscp Hest Hrel HappD HrD HEQ HrQ Hsz HqQ Hn HlQ
+         HsC HE1 Hr1 Hp1 Hr2 Hp2.
+  pose proof Hrel as ((HDt & HDa & Ho0 & Hfall) & Hoall).
+  pose proof Hstart as (Hi & Hst0 & Ga & Gb & Pa & Pb & Haddr & Hdel).
+  (* sizes *)
+  assert (HsmQ : NV.small stQ).
+  { split; [specialize (Hsz SA) | specialize (Hsz SB)]; cbn [net_get] in Hsz; change (2 ^ 30) with 1073741824 in Hsz; lia. }
+  pose proof (net_run_mono _ _ _ HrQ) as HmQ. pose proof (net_run_mono _ _ _ HrD) as HmD.
+  assert (Hsm : NV.small st) by exact (NV.small_mono _ _ HmD (NV.small_mono _ _ HmQ HsmQ)).
+  (* the regime invariant at the end of the fault prefix *)
+  destruct (hs_init ca cb st0 (cx_isn (ep_cx (n_a st0))) Dack Hi Hst0 Pa Pb Haddr Hdel) as (HP0 & Ho00).
+  destruct (hs_run Dack ca cb st0 Hstart pre [] st0 st eq_refl (or_introl HP0) Ho00 Hscp Hpre Hsm) as (Hinv & _).
+  assert (HG : reg SA Dack st).
+  { destruct Hinv as [HP | HG]; [|exact HG]. exfalso.
+    destruct (ph_phase _ _ _ HP) as [(_ & [B | B]) | (_ & B)]; rewrite (Hest SB) in B; discriminate. }
+  assert (Hre : reach st) by (exists ca, cb, st0, pre; auto).
+  exact (quiesce_close_from_reg Dt Da Dack n (fa_init Dt Da st) st evsD evsQ evs1 evs2 stD stQ stC st_m st' HDt HDa HDt2 HDack
+           Hre HG Ho0 (fa_init_sync Dt Da st) (dlb_init Dt Da st HDt) Hfall Hoall HappD HrD HEQ HrQ Hsz HqQ Hn HlQ HsC HE1 Hr1 Hp1 Hr2 Hp2).
+Qed.
+
+(* THE SAME FROM A PREFIX THAT LEAVES THE CLIENT IN SYN-SENT: the handshake with retransmissions
+   (Proofs/TcpProgressHsAll.v) is the first part evsH of the reliable schedule. *)
+Theorem handshake_quiesce_close_after_fault_prefix Dt Da Dack ca cb st0 (n : nat) :
+  forall pre st evsH evsQ evs1 evs2 stD stQ stC st_m st',
+  start_ok Dack ca cb st0 -> 2 * Dt < tcp_RTTE_MIN_RTO * 1000 -> 0 <= Dack ->
+  (* the fault prefix: the SYN or the SYN|ACK lost, duplicated, late - A is still in SYN-SENT *)
+  net_run st0 pre = Ok st -> Forall (script_ev SA) pre ->
+  s_state (net_sock st SA) = SynSent ->
+  reliable_schedule Dt Da st (evsH ++ evsQ ++ NClose SA :: evs1 ++ NClose SB :: evs2) ->
+  (* the handshake completes; A writes, B reads *)
+  Forall (app_ev SA) evsH -> net_run st evsH = Ok stD ->
+  run_all syn_win_open st evsH -> net_now st SA + max_rto_us + 3 * Dt < net_now stD SA ->
+  (* the applications neither write nor close *)
+  Forall qev evsQ -> net_run stD evsQ = Ok stQ ->
+  (forall z, l_len (ep_written (net_get stQ z)) < 2 ^ 30) ->
+  run_all qregime stD evsQ ->
+  (l_len (ep_written (net_get stD SA)) - una_off (net_get stD SA)) +
+  (l_len (ep_written (net_get stD SA)) - read_off (net_get stD SB)) <= Z.of_nat n ->
+  net_now stD SA + Z.of_nat n * Wz Dt Da + 2 * Dt + Dack < net_now stQ SA ->
+  (* A closes; B closes in CLOSE-WAIT *)
+  net_step stQ (NClose SA) = Ok stC ->
+  Forall (cl_ev SA false) evs1 -> net_run stC evs1 = Ok st_m -> net_now stQ SA + 2 * Dt < net_now st_m SA ->
+  net_run st_m (NClose SB :: evs2) = Ok st' ->
+  net_now st_m SA + 3 * Dt + tcp_CLOSE_DELAY < net_now st' SA ->
+  (exists h1 h2 sth,
+     evsH = h1 ++ h2 /\ net_run st h1 = Ok sth /\ net_run sth h2 = Ok stD /\
+     (forall z, s_state (net_sock sth z) = Established) /\
+     net_now sth SA <= net_now st SA + max_rto_us + 3 * Dt) /\
+  (exists p1 p2 sta,
+     evsQ = p1 ++ p2 /\ net_run stD p1 = Ok sta /\ net_run sta p2 = Ok stQ /\
+     una_off (net_get sta SA) = l_len (ep_written (net_get stD SA)) /\
+     read_off (net_get sta SB) = l_len (ep_written (net_get stD SA))) /\
+  (exists pre2 post st_c,
+     evs2 = pre2 ++ post /\ net_run st_m (NClose SB :: pre2) = Ok st_c /\ net_run st_c post = Ok st' /\
+     both_closed st_c).
+Proof.
+  intros pre st evsH evsQ evs1 evs2 stD stQ stC st_m st' Hstart HDt2 HDack Hpre Hscp Hsa Hrel HappH HrH HwinH HlH HEQ HrQ Hsz HqQ Hn HlQ
+         HsC HE1 Hr1 Hp1 Hr2 Hp2.
+  pose proof Hrel as ((HDt & HDa & Ho0 & Hfall) & Hoall).
+  set (rest := evsQ ++ NClose SA :: evs1 ++ NClose SB :: evs2) in *.
+  assert (HsmQ : NV.small stQ).
+  { split; [specialize (Hsz SA) | specialize (Hsz SB)]; cbn [net_get] in Hsz; change (2 ^ 30) with 1073741824 in Hsz; lia. }
+  pose proof (net_run_mono _ _ _ HrQ) as HmQ.
+  assert (HsmD : NV.small stD) by exact (NV.small_mono _ _ HmQ HsmQ).
+  destruct (fair_run_app Dt Da evsH rest _ st stD HrH Hfall) as (HfH & _).
+  assert (HfsH : fair_schedule Dt Da st evsH) by (split; [exact HDt|]; split; [exact HDa|]; split; assumption).
+  destruct (handshake_completes_after_loss Dt Da Dack ca cb st0 Hstart pre st evsH stD Hpre Hscp Hsa HfsH HappH HrH HsmD HwinH HlH)
+    as (h1 & h2 & fa1 & sth & EH & Hh1 & Hh2 & HG & Hre & Hoh & _ & _ & Hch).
+  split; [exists h1, h2, sth; split; [exact EH|]; split; [exact Hh1|]; split; [exact Hh2|]; split; [exact (rg_est _ _ _ HG) | exact Hch]|].
+  (* the bookkeeping of the run so far, at the state in which both are ESTABLISHED *)
+  rewrite EH, <- app_assoc in Hfall, Hoall.
+  destruct (fair_run_app Dt Da h1 (h2 ++ rest) _ st sth Hh1 Hfall) as (Hf1 & Hf2).
+  destruct (once_run_app Dt Da h1 (h2 ++ rest) _ st sth Hh1 Hoall) as (_ & Ho2).
+  rewrite EH in HappH. apply Forall_app in HappH. destruct HappH as (_ & Happ2).
+  exact (quiesce_close_from_reg Dt Da Dack n _ sth h2 evsQ evs1 evs2 stD stQ stC st_m st' HDt HDa HDt2 HDack
+           Hre HG Hoh (dl_sync_run Dt Da h1 _ st sth (fa_init_sync Dt Da st) Hf1 Hh1)
+           (dlb_run Dt Da h1 _ st sth HDt (dlb_init Dt Da st HDt) Hf1 Hh1) Hf2 Ho2 Happ2 Hh2 HEQ HrQ Hsz HqQ Hn HlQ HsC HE1 Hr1 Hp1 Hr2 Hp2).
 Qed.
